@@ -41,10 +41,6 @@ def pairs():
         # a stricter fail span that no longer contains the suspect span: the function rejects it; if it did not, the flags must still not improve
         (dict(fail_span=(0, 10), suspect_span=(2, 8)), dict(fail_span=(3, 9), suspect_span=(2, 8))),
         (dict(fail_span=(0, 10), suspect_span=(2, 8)), dict(fail_span=(3, 7), suspect_span=(2, 8))),
-        # a NaN bound leaves that side open (no comparison with NaN holds): closing it is a stricter span
-        (dict(fail_span=(NAN, 6)), dict(fail_span=(0, 6))),
-        (dict(fail_span=(0, NAN)), dict(fail_span=(0, 6))),
-        (dict(fail_span=(0, 6), suspect_span=(NAN, 4)), dict(fail_span=(0, 6), suspect_span=(2, 4))),
     ], [1, 2], 1)
     yield ('valid_range_test', lambda p: [data_input('inp', p, carrier='ndarray')], [
         (dict(valid_span=(1, 5)), dict(valid_span=(2, 4))),
